@@ -8,7 +8,7 @@ every event equals its state before, and everything executed afterwards is recor
 """
 from __future__ import annotations
 
-from engines.prelude import pick, reach
+from engines.prelude import pick, reach, realize
 from pynguin.instrumentation import PynguinCompare
 from pynguin.instrumentation.tracer import ExecutionTracer, SubjectProperties
 
@@ -16,7 +16,12 @@ PROPERTY = "C05"
 
 CMPS = (PynguinCompare.LT, PynguinCompare.LE, PynguinCompare.EQ, PynguinCompare.NE, PynguinCompare.GT, PynguinCompare.GE,
         PynguinCompare.IN, PynguinCompare.NOT_IN, PynguinCompare.IS, PynguinCompare.IS_NOT)
-EXCS = (ValueError, TypeError, KeyError, ZeroDivisionError, RuntimeError)
+class _UserAbort(BaseException):
+    """A user-defined BaseException that is not an Exception (like SystemExit /
+    KeyboardInterrupt raised by a user operator and caught by the SUT itself)."""
+
+
+EXCS = (ValueError, TypeError, KeyError, ZeroDivisionError, _UserAbort)
 
 
 class _Boom:
@@ -67,6 +72,15 @@ class _Boom:
     def __float__(self):
         return self._maybe(6, 1.0)
 
+    @property
+    def prop(self):
+        return self._maybe(7, 42)
+
+    def __getattr__(self, name):
+        if name == "dyn":
+            return self._maybe(8, 43)
+        raise AttributeError(name)
+
     __hash__ = None  # type: ignore[assignment]
 
 
@@ -85,6 +99,9 @@ def _operand(kind, which, exc):
 def _event(tracer, ev, cmp_sel, ka, kb, which, exc_sel):
     """One tracer callback as instrumented SUT code would issue it; the SUT's own
     try/except swallows whatever escapes."""
+    if ev == 6:
+        # getattr() runs the property / __getattr__ from C: selectors are realised first
+        cmp_sel, which, exc_sel = realize((cmp_sel, which, exc_sel))
     exc = pick(EXCS, exc_sel)
     a, b = _operand(ka, which, exc), _operand(kb, which, exc)
     try:
@@ -99,9 +116,14 @@ def _event(tracer, ev, cmp_sel, ka, kb, which, exc_sel):
             tracer.executed_exception_match(ValueError("x"), b if kb != 2 else ValueError, 0)
         elif ev == 4:
             tracer.track_line_visit(7)
-        else:
+        elif ev == 5:
             tracer.executed_code_object(3)
-    except Exception:  # noqa: BLE001  (the SUT catches)
+        else:
+            # checked coverage: attribute access on an object whose property / __getattr__ raises
+            import opcode as _opcode
+
+            tracer.track_attribute_access("m", 0, 0, _opcode.opmap["LOAD_ATTR"], 1, 0, "prop" if cmp_sel % 2 == 0 else "dyn", a)
+    except (Exception, _UserAbort):  # noqa: BLE001  (the SUT catches what its own operator raised)
         return True
     return False
 
@@ -119,7 +141,7 @@ def _followup_recorded(tracer, line_id) -> bool:
 
 def h_event(ev: int, cmp_sel: int, ka: int, kb: int, which: int, exc_sel: int, start_disabled: bool) -> bool:
     """
-    pre: 0 <= ev <= 5 and 0 <= cmp_sel <= 9 and 0 <= ka <= 4 and 0 <= kb <= 4 and 0 <= which <= 6 and 0 <= exc_sel <= 4
+    pre: 0 <= ev <= 6 and 0 <= cmp_sel <= 9 and 0 <= ka <= 4 and 0 <= kb <= 4 and 0 <= which <= 8 and 0 <= exc_sel <= 4
     post: _
     """
     tracer = ExecutionTracer()
@@ -141,16 +163,16 @@ def h_event(ev: int, cmp_sel: int, ka: int, kb: int, which: int, exc_sel: int, s
 
 def h_history(e1: int, c1: int, a1: int, w1: int, e2: int, c2: int, a2: int, w2: int, e3: int, c3: int, a3: int, w3: int) -> bool:
     """
-    pre: 0 <= e1 <= 3 and 0 <= e2 <= 3 and 0 <= e3 <= 3
+    pre: (0 <= e1 <= 3 or e1 == 6) and (0 <= e2 <= 3 or e2 == 6) and (0 <= e3 <= 3 or e3 == 6)
     pre: 0 <= c1 <= 3 and 0 <= c2 <= 3 and 0 <= c3 <= 3
     pre: 3 <= a1 <= 4 and 3 <= a2 <= 4 and 3 <= a3 <= 4
-    pre: 0 <= w1 <= 6 and 0 <= w2 <= 6 and 0 <= w3 <= 6
+    pre: 0 <= w1 <= 8 and 0 <= w2 <= 8 and 0 <= w3 <= 8
     post: _
     """
     tracer = ExecutionTracer()
     with tracer:
         for i, (e, c, a, w) in enumerate(((e1, c1, a1, w1), (e2, c2, a2, w2), (e3, c3, a3, w3))):
-            _event(tracer, e, pick((0, 2, 6, 3), c), a, 4, w, 0)
+            _event(tracer, e, pick((0, 2, 6, 3), c), a, 4, w, 4 if w % 2 else 0)
             if tracer.is_disabled():
                 return reach(False)
             if not _followup_recorded(tracer, 20 + i):
@@ -258,10 +280,10 @@ META = {
                   "executed_bool_predicate/executed_in_presence_predicate/executed_exception_match/track_line_visit/"
                   "executed_code_object/enable/disable/is_disabled", "_early_return",
                   "TestCaseExecutor._before_statement_execution/_after_statement_execution"],
-    "bounds": {"events": "1 (inductive step, any start state) and histories of 3", "operand kinds": 5, "raising dunders": 7,
-               "exception types": 5},
-    "outside": ["exceptions that are not Exception subclasses (KeyboardInterrupt, TracingAbortedException)",
-                "multi-threaded executions", "attribute-access / memory tracking callbacks of checked coverage"],
+    "bounds": {"events": "1 (inductive step, any start state) and histories of 3", "operand kinds": 5, "raising dunders": "9 (ordering, equality, contains, iter, bool, len, abs/float, a property, __getattr__)",
+               "exception types": "4 Exception subclasses + a user-defined BaseException subclass"},
+    "outside": ["TracingAbortedException (the executor's own abort signal)", "multi-threaded executions",
+                "memory / call / return tracking callbacks of checked coverage (attribute access is covered)"],
     "assumptions": ["the SUT catches the exception with `except Exception`", "executor built without its constructor: the two "
                     "hooks only read _subject_properties and the remote observers"],
 }
@@ -274,11 +296,13 @@ def obligations(tier: str):
     T = 90 if q else 600
     obs = [
         Chx("event", h_event, timeout=T, split={"ev": list(range(6)), "ka": list(range(5))}),
+        # attribute access: only the parity of cmp_sel (property vs __getattr__) and the first operand matter
+        Chx("event_attr", h_event, timeout=T, fix={"ev": 6, "kb": 0}, split={"cmp_sel": [0, 1], "ka": [0, 4]}),
         Chx("context_managers", h_context_managers, timeout=T),
         Chx("executor_hooks", h_executor_hooks, timeout=T),
     ]
     if q:
-        obs.append(Chx("history", h_history, timeout=T, fix={"e3": 0, "c3": 0, "a3": 3, "w3": 0}, split={"e1": [0, 1, 2, 3], "w1": [0, 1, 4]}))
+        obs.append(Chx("history", h_history, timeout=T, fix={"e3": 0, "c3": 0, "a3": 3, "w3": 0}, split={"e1": [0, 1, 2, 3, 6], "w1": [0, 1, 4, 7]}))
     else:
-        obs.append(Chx("history", h_history, timeout=T, split={"e1": [0, 1, 2, 3], "e2": [0, 1, 2, 3], "w1": list(range(7))}))
+        obs.append(Chx("history", h_history, timeout=T, split={"e1": [0, 1, 2, 3, 6], "e2": [0, 1, 2, 3, 6], "w1": list(range(9))}))
     return obs
